@@ -141,6 +141,15 @@ def mk_app(fn, args=(), kw=()):
             # element j of the diagonal over the last two axes: diagonal(M)[..., j] = M[..., j, j]
             return mk_app("getitem", [base.args[0], Tup([Const(Ellipsis), idx.items[1], idx.items[1]])])
         _full = App("slice", (Const(None), Const(None), Const(None)))
+        if isinstance(base, App) and base.fn == "attr:T" and len(base.args) == 1 and not isinstance(idx, Tup) and not (isinstance(idx, App) and idx.fn == "slice"):
+            inner = base.args[0]
+            two_d = isinstance(inner, App) and inner.fn == "reshape" and len(inner.args) == 2 and isinstance(inner.args[1], Tup) and len(inner.args[1].items) == 2
+            if two_d:
+                return mk_app("getitem", [inner, Tup([_full, idx])])      # row j of the transpose of a 2-d array is its column j
+        if isinstance(base, App) and base.fn == "stack" and len(base.args) == 1 and isinstance(base.args[0], Tup) and dict(base.kw or []).get("axis") == Const(-1) \
+                and not isinstance(idx, Tup) and not (isinstance(idx, App) and idx.fn == "slice") and idx != Const(None):
+            # stack([a, b], axis=-1)[j] = stack([a[j], b[j]], axis=-1)
+            return App("stack", (Tup([mk_app("getitem", [it, idx]) for it in base.args[0].items]),), base.kw)
         if isinstance(idx, Tup) and type(idx) is Tup and Const(Ellipsis) not in idx.items and idx.items and idx.items[-1] == _full:
             # trailing full slices select everything: x[None, :] = x[None]
             items = list(idx.items)
